@@ -143,7 +143,7 @@ def _prune_cache(keep):
     """Keep the cache bounded: drop fact directories older than the newest 6."""
     try:
         ds = [os.path.join(CACHE, x) for x in os.listdir(CACHE)]
-        ds = [x for x in ds if os.path.isdir(x)]
+        ds = [x for x in ds if os.path.isdir(x) and os.path.basename(x) != "gen"]
         ds.sort(key=os.path.getmtime, reverse=True)
         import shutil
         for x in ds[10:]:
@@ -341,6 +341,9 @@ class TU:
         r = self.by_qe.get(qe, [])
         if body:
             r = [f for f in r if f.has_body]
+        if qe.startswith("trompeloeil::"):
+            # user-written specialisations of library templates (print<T>, printer<T>, reporter<T>) are user code
+            r = [f for f in r if f.is_lib or not f.has_body]
         return r
 
     def find_re(self, pattern, body=True):
